@@ -610,6 +610,26 @@ func checkFallback(c FallbackCase, s *rt.Section) *rt.Failure {
 			seen[x] = struct{}{}
 		}
 	}
+	// contexts without a seed, created one right after the other (a host that makes a VM per command), share the package-level
+	// generator: what they roll are successive draws of one stream, never the same dice again
+	firsts := map[string]int{}
+	const nvm = 64
+	for i := 0; i < nvm; i++ {
+		vm := ds.NewVM()
+		if err := vm.Run("4d1000000007"); err != nil {
+			return s.NewFailure("vm-runs", "vm:error", c, "fresh unseeded VM: "+err.Error(), "no error")
+		}
+		firsts[vm.GetDetailText()]++
+	}
+	if len(firsts) < nvm-1 {
+		worst, text := 0, ""
+		for k, n := range firsts {
+			if n > worst {
+				worst, text = n, k
+			}
+		}
+		return s.NewFailure("independent-draws", "fallback:fresh-vms-repeat", c, fmt.Sprintf("%d unseeded VMs created back to back rolled only %d different results of 4d1000000007; %d of them rolled %s", nvm, len(firsts), worst, text), "64 different results (four independent draws from a billion faces each)")
+	}
 	if repeats > 1 {
 		return s.NewFailure("independent-draws", "fallback:repeated-draws", c, fmt.Sprintf("%d of %d concurrent draws from the package-level generator repeat an earlier value", repeats, c.Goroutines*c.Draws), "no repeats among independent 62-bit draws")
 	}
@@ -849,7 +869,7 @@ func TestProp(t *testing.T) {
 	}
 
 	// ---- the fallback generator under concurrent use
-	run.Enum("fallback", "8 goroutines draw Roll(nil, 2^62, 0) 150000 times each at the same time (the package-level generator that unseeded contexts share): every draw in range and at most one value drawn twice among the 1.2 million (independent 62-bit draws show one repeat with probability 2e-7, two with 2e-14; a generator stepped without mutual exclusion repeats thousands of times); non-trivial = the run itself; one shard runs it", func(s *rt.Section) {
+	run.Enum("fallback", "8 goroutines draw Roll(nil, 2^62, 0) 150000 times each at the same time (the package-level generator that unseeded contexts share): every draw in range and at most one value drawn twice among the 1.2 million (independent 62-bit draws show one repeat with probability 2e-7, two with 2e-14; a generator stepped without mutual exclusion repeats thousands of times); non-trivial = the run itself; then 64 unseeded VMs created back to back each roll 4d1000000007: 64 different results; one shard runs it", func(s *rt.Section) {
 		if run.Env.Shard != 0 {
 			return
 		}
